@@ -15,28 +15,30 @@ import (
 )
 
 type Engine struct {
-	repo      string
-	prog      *ssa.Program
-	pkgs      []*packages.Package
-	spkgs     map[string]*ssa.Package // by package name
-	funcs     map[string]*ssa.Function
-	funcKey   map[*ssa.Function]string
-	contracts *Contracts
-	typeByKey map[string]*types.Named
-	fresh     int
-	obls      []*Obligation
-	oblByName map[string]*Obligation
-	warnings  map[string]bool
-	externals map[string]bool
-	typeIDs   map[string]int
-	strLits   map[string]int
-	regionIDs map[string]int
-	tier      string
-	axCache   map[string]*cachedAxiom
-	known     []*KnownFinding
-	timeoutS  int
-	verbose   bool
-	outDir    string
+	repo       string
+	prog       *ssa.Program
+	pkgs       []*packages.Package
+	spkgs      map[string]*ssa.Package // by package name
+	funcs      map[string]*ssa.Function
+	funcKey    map[*ssa.Function]string
+	contracts  *Contracts
+	typeByKey  map[string]*types.Named
+	fresh      int
+	obls       []*Obligation
+	oblByName  map[string]*Obligation
+	warnings   map[string]bool
+	externals  map[string]bool
+	typeIDs    map[string]int
+	strLits    map[string]int
+	regionIDs  map[string]int
+	tier       string
+	axCache    map[string]*cachedAxiom
+	lemmaLimit int
+	axCacheKey string
+	known      []*KnownFinding
+	timeoutS   int
+	verbose    bool
+	outDir     string
 }
 
 func repoPkgPrefix() string { return "github.com/craterdog/go-collection-framework/v4" }
@@ -44,7 +46,7 @@ func repoPkgPrefix() string { return "github.com/craterdog/go-collection-framewo
 func NewEngine(repo string) (*Engine, error) {
 	e := &Engine{repo: repo, spkgs: map[string]*ssa.Package{}, funcs: map[string]*ssa.Function{}, funcKey: map[*ssa.Function]string{},
 		typeByKey: map[string]*types.Named{}, oblByName: map[string]*Obligation{}, warnings: map[string]bool{}, externals: map[string]bool{},
-		typeIDs: map[string]int{}, strLits: map[string]int{}, regionIDs: map[string]int{}}
+		typeIDs: map[string]int{}, strLits: map[string]int{}, regionIDs: map[string]int{}, lemmaLimit: -1}
 	cfg := &packages.Config{Mode: packages.LoadAllSyntax, Dir: filepath.Join(repo, "v4"), Tests: false,
 		Env: append(os.Environ(), "GOFLAGS=-mod=mod", "GOPROXY=off", "GOSUMDB=off", "GOTOOLCHAIN=local")}
 	pkgs, err := packages.Load(cfg, "./...")
